@@ -70,7 +70,7 @@ void regHyperFull() {
 }
 
 void registerHyper() {
-#ifdef C11_FULL
+#if 0 // full matrix: see c11_x_*.cpp
   regHyperFull<void>();
   regHyperFull<uint32_t>();
   regHyperFull<uint64_t>();
